@@ -97,7 +97,7 @@ RULE = ("E3: every filter expression built by <=2 (quick) / <=3 (thorough) appli
 EXHAUSTIVE = True
 EXHAUSTIVE_SCOPE = {
     "quick": "E3 depth 2 over {c0,c1,True,False}; E2 14 structures x 10^3 op sequences; E1 28x28 binding pairs x 14 key strings x 2 timeout modes; E4 7x7 pairs x 6 handler behaviours x 84 key strings (len<=3 over 4 keys)",
-    "thorough": "E3 depth 3 over {c0,c1,True}; E2 14 structures x 10^4 op sequences; E1 108x108 binding pairs x 30 key strings x 2-3 timeout modes + 6000 sampled triples/quadruples; E4 18x18 pairs x 6 behaviours x 84 key strings (len<=3 over 4 keys)"}
+    "thorough": "E3 depth 3 over {c0,c1,True}; E2 14 structures x 10^4 op sequences; E1 108x108 binding pairs x 30 key strings (all keys at once; a timeout after every key for len<=3; after the first key for a quarter of the pairs) + 6000 sampled triples/quadruples; E4 18x18 pairs x 6 behaviours x 84 key strings (len<=3 over 4 keys)"}
 TRUSTED = ["harness/c04.py compares, after every operation, the printed structure of filters (incl. object identity of "
            "memoised results), binding lists, versions, and for every process_keys call the sequence of queue pops, "
            "before/after events, handler calls with key_sequence and previous_key_sequence, dropped keys, keys pushed "
@@ -1278,7 +1278,7 @@ def proc_script(strings, modes):
     ops = []
     tag = 0
     for ks in strings:
-        for mode in modes:
+        for mode in (modes(ks) if callable(modes) else modes):
             ops.append(["reset"])
             kps = []
             for k in ks:
@@ -1324,8 +1324,11 @@ def e1_cases(tier, rng):
         strings = list(key_strings(4))
         for b1 in var:
             for b2 in var:
+                # all keys at once for every string; a timeout after every key for the strings up to
+                # length 3; a timeout after the first key for a quarter of the pairs
+                third = rng.random() < 0.25
                 yield e1_case([b1, b2], rng.random() < 0.5, rng.random() < 0.3, strings,
-                              [0, 1, 2] if rng.random() < 0.25 else [0, 1])
+                              lambda ks, third=third: [0] + ([1] if len(ks) <= 3 else []) + ([2] if third else []))
         for _ in range(6000):
             yield e1_case([rng.choice(var) for _ in range(rng.choice([3, 3, 4]))], rng.random() < 0.5,
                           rng.random() < 0.3, strings, [rng.randrange(3)])
